@@ -33,7 +33,22 @@ func init() {
 // sweep above 512 then passes through the exact fit of that record.
 const c09Q = "www.department-of-redundancy.subsidiary-office-west.example.org."
 
-var c09ShapeNames = []string{"A-qname", "A-other", "CNAME-suffix", "TXT200", "A-escaped", "AAAA-qname", "MX-suffix", "SRV"}
+var c09ShapeNames = []string{"A-qname", "A-other", "CNAME-suffix", "TXT200", "A-escaped", "AAAA-qname", "MX-suffix", "SRV", "TXT-filler", "NS-deleg", "A-glue"}
+
+// shapes 8..10 are used by the beyond-16384 space only (never drawn from the pool)
+const c09NSTarget = "ns1.delegated-child-zone.example.net."
+
+// c09Filler: a TXT record on the question name whose RDATA is exactly R octets long.
+func c09Filler(R int) dns.RR {
+	n := (R + 255) / 256
+	L := R - n
+	var chunks []string
+	for i := 0; i < n-1; i++ {
+		chunks = append(chunks, strings.Repeat("f", 255))
+	}
+	chunks = append(chunks, strings.Repeat("f", L-255*(n-1)))
+	return &dns.TXT{Hdr: dns.RR_Header{Name: c09Q, Rrtype: dns.TypeTXT, Class: dns.ClassINET, Ttl: 300}, Txt: chunks}
+}
 
 const c09ESC = 4 // index of the escaped-owner shape in c09ShapeNames
 
@@ -60,6 +75,12 @@ func c09RR(sh, pos int) dns.RR {
 		return &dns.MX{Hdr: h(c09Q, dns.TypeMX), Preference: uint16(10 + pos), Mx: "mx.department-of-redundancy.subsidiary-office-west.example.org."}
 	case 7:
 		return &dns.SRV{Hdr: h("_sip._tcp.example.org.", dns.TypeSRV), Priority: 1, Weight: uint16(pos), Port: 5060, Target: "sip.subsidiary-office-west.example.org."}
+	case 8:
+		return c09Filler(4000)
+	case 9:
+		return &dns.NS{Hdr: h("example.org.", dns.TypeNS), Ns: c09NSTarget}
+	case 10:
+		return &dns.A{Hdr: h(c09NSTarget, dns.TypeA), A: []byte{10, 0, byte(pos >> 8), byte(pos)}}
 	}
 	panic("shape")
 }
@@ -74,6 +95,7 @@ type c09Msg struct {
 	compress   bool
 	tc         bool
 	tsig       bool // TSIG as very last additional record
+	largeT     int  // > 0 (beyond-16384 space): the 4th filler TXT is sized so that the NS target name starts at this offset of the compressed message
 }
 
 func (d c09Msg) String() string {
@@ -157,6 +179,13 @@ func c09Build(d c09Msg) *dns.Msg {
 			}
 		}
 	}
+	if d.largeT > 0 {
+		// answer = 4 fillers, authority = 1 NS: compressed layout is header, question (qname wire + 4), four records of
+		// 2 (pointer) + 10 + RDATA, then the NS record 2 + 10 and its target
+		qw := len(c09Q) + 1 // wire length of a name without escapes = text length + 1
+		R := d.largeT - (12 + qw + 4) - 4*12 - 3*4000 - 12
+		m.Answer[3] = c09Filler(R)
+	}
 	if d.tsig {
 		m.Extra = append(m.Extra, &dns.TSIG{
 			Hdr:       dns.RR_Header{Name: "key.example.org.", Rrtype: dns.TypeTSIG, Class: dns.ClassANY},
@@ -183,6 +212,9 @@ func c09IsOPT(rr dns.RR) bool { _, ok := rr.(*dns.OPT); return ok }
 func c09Reply(r *fw.R, d c09Msg) {
 	orig := c09Build(d)
 	buf := make([]byte, 8192)
+	if d.largeT > 0 {
+		buf = make([]byte, 65536)
+	}
 	U := c09PackLen(orig, false, buf)
 	C := c09PackLen(orig, true, buf)
 	var optRR dns.RR
@@ -241,7 +273,46 @@ func c09Reply(r *fw.R, d c09Msg) {
 	}
 
 	sizes := make([]int, 0, U+8)
-	for s := 0; s <= U+2; s++ {
+	if d.largeT > 0 {
+		// check the construction: the NS target starts at largeT in the compressed message
+		cp := *orig
+		cp.Compress = true
+		pk, _ := cp.Pack()
+		w := []byte("\x03ns1\x14delegated-child-zone")
+		if d.largeT+len(w) > len(pk) || string(pk[d.largeT:d.largeT+len(w)]) != string(w) {
+			panic(fmt.Sprintf("harness: NS target not at offset %d", d.largeT))
+		}
+		// sizes: 512, every size in 16300..16500, C-300..C+300 and U-2..U+2, every size at which a prefix fits exactly
+		// (±1), and a stride through the rest (every 53rd size quick, every 7th thorough)
+		stride := 53
+		if r.Thorough() {
+			stride = 7
+		}
+		want := map[int]bool{512: true, 65535: true}
+		for s := 16300; s <= 16500; s++ {
+			want[s] = true
+		}
+		for s := C - 300; s <= C+300; s++ {
+			want[s] = true
+		}
+		for s := U - 2; s <= U+2; s++ {
+			want[s] = true
+		}
+		for k := 0; k <= P; k++ {
+			for dlt := -1; dlt <= 1; dlt++ {
+				want[prefix(k)+dlt] = true
+			}
+		}
+		for s := 513; s <= U+2; s += stride {
+			want[s] = true
+		}
+		for s := 512; s <= 65535; s++ {
+			if want[s] {
+				sizes = append(sizes, s)
+			}
+		}
+	}
+	for s := 0; s <= U+2 && d.largeT == 0; s++ {
 		// every size below the documented 512-octet floor is the same request as 512: in the quick tier only a
 		// spread of them is run (every one in the thorough tier); every size from 505 upwards is always run
 		if s < 505 && !r.Thorough() && !(s <= 2 || s%64 == 0 || s == 255 || s == 300 || s == 400 || s == 500) {
@@ -250,7 +321,7 @@ func c09Reply(r *fw.R, d c09Msg) {
 		sizes = append(sizes, s)
 	}
 	for _, s := range []int{511, 512, 513, 65535} {
-		if s > U+2 {
+		if s > U+2 && d.largeT == 0 {
 			sizes = append(sizes, s)
 		}
 	}
@@ -520,6 +591,28 @@ func c09Spaces(c *fw.Ctx) {
 									}
 								}
 							}
+						}
+					}
+				}
+			}
+		})
+
+	glueN := []int{3, 150}
+	c.Space("beyond-16384", "replies longer than 16 KiB: answer = 4 filler TXT records on the question name (the 4th sized so that the target name of the NS record in the authority section starts at compressed offset T), additional = G glue A records owned by that target; T = every offset 16360..16410 (names that start at 16384 or later cannot be pointer targets, so the glue owners are written in full and the compressed length jumps), G ∈ {3, 150} × OPT {none, last} × Compress × Truncated; sizes: 512, 65535, every size 16300..16500, compressed length ± 300, uncompressed length ± 2, every exact prefix fit ± 1 and a stride (53 quick, 7 thorough) through 513..uncompressed length; non-trivial: some size drops a record", true,
+		func(emit func(func(*fw.R))) {
+			for T := 16360; T <= 16410; T++ {
+				for _, g := range glueN {
+					for opt := 0; opt <= 1; opt++ {
+						for f := 0; f < 4; f++ {
+							if g == 150 && !c.Thorough && (opt == 0 || f&2 != 0) {
+								continue // quick: the long glue list only with OPT and Truncated clear
+							}
+							shapes := []int{8, 8, 8, 8, 9}
+							for i := 0; i < g; i++ {
+								shapes = append(shapes, 10)
+							}
+							d := c09Msg{na: 4, nn: 1, nx: g, shapes: shapes, opt: opt, largeT: T, compress: f&1 != 0, tc: f&2 != 0}
+							emit(func(r *fw.R) { c09Reply(r, d) })
 						}
 					}
 				}
